@@ -98,6 +98,7 @@ def flux_at(S, T_top_K, liquid):
 
 def sn1d_case(S, dt, rng, ncool=25, nsolid=25):
     """Coq text of one sn1d_case_ok case built from the saved fields of a finished 1D run (every step saved)."""
+    every_step_saved(S, dt)
     c = S.const
     T = np.asarray(S.temp) + 273.15
     W = np.asarray(S.iceMassFraction)
@@ -289,7 +290,15 @@ def flux_2d(S, Ttop):
     return U.vapour_flux(c["kappa"], c["m_water"], c["k_B"], c["p_vac"], p, Ttop, Ttop)
 
 
+def every_step_saved(S, dt):
+    """the one-step cases need consecutive saved rows (runs of at most 10000 steps)"""
+    t = np.asarray(S.time) * 3600.0
+    if len(t) > 2 and abs((t[1] - t[0]) - dt) > 1e-6 * dt:
+        raise RuntimeError("harness: this run was saved with a stride (%.6g s between rows, dt = %.6g s): one-step cases need every step" % (t[1] - t[0], dt))
+
+
 def sn2d_case(S, dt, rng, ncool=6, nsolid=6):
+    every_step_saved(S, dt)
     c = S.const
     T = np.asarray(S.temp) + 273.15
     W = np.asarray(S.iceMassFraction)
